@@ -42,7 +42,7 @@ EXHAUSTIVE = {'quick': False, 'thorough': False}
 THOROUGH_WORKERS = 8
 TRUSTED = [
     'statements in lean/ParamVerif/Props/C01.lean',
-    'spec-side definitions lean/ParamVerif/Validate/Spec.lean (Sat, specCfg, CtorSat, WF, Clean; judgeAssign/judgeCtor are the oracle)',
+    'spec-side definitions lean/ParamVerif/Validate/Spec.lean (Sat, specCfg, CtorSat, WF; judgeAssign/judgeCtor are the oracle)',
     'lean/ParamVerif/Py/Value.lean: Python ordering/equality/isinstance on the value universe (exact mixed int/float/Fraction/Decimal '
     'comparison, nan unordered, date-vs-datetime ordering raises TypeError, a >= b is b <= a)',
     'harness/props/c01.py adapter: value codec, exception-class mapping, read-back by identity via param.get_value_generator',
@@ -61,10 +61,11 @@ ASSUMPTIONS = [
     'declarations: hard bounds are bool/int/float (Number family) or date/datetime; softbounds, Number/Date step, set_hook, '
     'compute_default_fn, dict-declared Selector objects, NaN among Selector objects, List(class_=...) alias are not exercised',
     'colour strings are ASCII (str.lower is modelled on ASCII)',
+    'Range declared with a one-item default (the constructor raises IndexError from val[1], not ValueError) is not exercised',
     'Selector/ListSelector declared with a default but with empty objects and no explicit check_on_set is not exercised: the '
     'check_on_set slot is computed lazily, after the default has been appended to the objects, and ends up True',
 ]
-RULE = ('directed prefix (one case per validator branch, the witnesses of the findings, invalid defaults) + exhaustive small-scope grid: '
+RULE = ('directed prefix (one case per validator branch, the witnesses of the five repaired deviations, invalid defaults) + exhaustive small-scope grid: '
         'Number/Integer bounds from {None,-1,0,1,2,-inf,inf}^2 x 4 inclusivities x allow_None on/off x ~60 values (None, bools, ints, '
         'floats incl. nan/inf and the float neighbours of every bound, Fraction, Decimal, big ints, str, bytes, containers, dates, '
         'callables, classes, instances; Integer with a 38-value pool in the quick tier); Range the same bounds x step {None,1,-1} x ~90 pairs (every third declaration in the quick tier); length grids for the Tuple family and List, '
@@ -527,7 +528,7 @@ def tuple_cases():
             yield mk(ptype, A(default=E(tuple(range(n))), length=n), pool)
             yield mk(ptype, A(length=n), pool)
         yield mk(ptype, A(default=None), pool)                       # length must be given
-        yield mk(ptype, A(default=E((1, 2, 3)), length=2), pool)     # finding: explicit length overridden
+        yield mk(ptype, A(default=E((1, 2, 3)), length=2), pool)     # the length of a non-empty default wins (docstring)
         yield mk(ptype, A(default=E(('a', 'b'))), pool)
     for kw in ({}, A(allow_None=True), A(default=None), A(default=E((1.5, -2))), A(default=E((1, 2, 3))),
                A(default=E((1,))), A(default=E(('a', 'b')))):
@@ -698,8 +699,6 @@ def date_cases():
     rother = [None, (), (D0,), (D0, D1, D2), (D0, None), (None, None), (1, 2), ('a', 'b'), D0, T0, 5, 'ab', '', b'ab', F1, UA, OA,
               (D0, 1), (T0, T1, T2), {1: 2}, [1, 2], (NAN, NAN)]
     rpool = [E(v) for v in pairs + rother]
-    # the witnesses of the CalendarDateRange finding are kept apart (directed cases) so that
-    # the grid stays readable: lists / mappings of two dates
     for ptype in ('DateRange', 'CalendarDateRange'):
         for lo, hi in bsets:
             for incl in INCL:
@@ -767,7 +766,7 @@ CSS3 = ('aliceblue antiquewhite aqua aquamarine azure beige bisque black blanche
 
 
 def directed():
-    """one small case per validator branch / finding witness; runs first"""
+    """one small case per validator branch / repaired deviation; runs first"""
     num = [E(v) for v in [None, 0, 1, 0.5, 1.0, math.nextafter(1.0, INF), NAN, True, F1, GEN, 'a', Fraction(1, 2), Decimal('0.5')]]
     yield mk('Number', A(default=E(0.5), bounds=[E(0), E(1)]), num)
     yield mk('Number', A(default=E(0.5), bounds=[E(0), E(1)], inclusive_bounds=[False, False]), num)
@@ -778,7 +777,7 @@ def directed():
     yield mk('Number', A(default=E(0), bounds=[E(Fraction(0)), E(Fraction(1))]), num)    # Fraction bounds (outside the declared domain, still exact)
     yield mk('Number', A(default=None, bounds=[E(D0), None]), num)                       # ill-typed bound: the comparison raises TypeError
     yield mk('Integer', A(default=E(1), bounds=[E(0), E(5)]), num)
-    yield mk('Integer', A(default=E(1)), [E(GEN)])                                       # finding: generator function
+    yield mk('Integer', A(default=E(1)), [E(GEN)])                                       # repaired: generator function refused
     yield mk('Integer', A(default=E(GEN)), [E(1)])
     yield mk('Magnitude', {}, num)
     yield mk('Magnitude', A(bounds=None), num)
@@ -793,11 +792,11 @@ def directed():
     yield mk('Range', A(default=E((0, 1, 2))), rng)
     yield mk('Range', A(default=E((5, 6)), bounds=[E(0), E(1)]), rng)
     yield mk('Range', A(default=E((0, 1)), allow_None=False), rng)
-    yield mk('ListSelector', A(objects=[E(1), E(2)], allow_None=True), [E([None, 1]), E([None]), E([1]), E(None), E([3])])   # finding
-    yield mk('CalendarDateRange', {}, [E([D0, D1]), E((D0, D1)), E({D0: 1, D1: 2})])                                           # finding
-    yield mk('Color', A(default=E('#fff')), [E('ff0000\n'), E('#fff\n'), E('#fff'), E('red\n')])                                # finding
-    yield mk('XYCoordinates', A(default=E((1, 2, 3))), [E((1, 2)), E((1, 2, 3))])                                               # finding
-    yield mk('Tuple', A(default=E((1, 2, 3)), length=2), [E((1, 2)), E((1, 2, 3))])                                             # finding
+    yield mk('ListSelector', A(objects=[E(1), E(2)], allow_None=True), [E([None, 1]), E([None]), E([1]), E(None), E([3])])   # repaired: None items refused
+    yield mk('CalendarDateRange', {}, [E([D0, D1]), E((D0, D1)), E({D0: 1, D1: 2}), E((T0, T1))])                                # repaired: tuples of plain dates only
+    yield mk('Color', A(default=E('#fff')), [E('ff0000\n'), E('#fff\n'), E('#fff'), E('red\n')])                                # repaired: no trailing newline
+    yield mk('XYCoordinates', A(default=E((1, 2, 3))), [E((1, 2)), E((1, 2, 3))])                                               # length follows a non-empty default (docstring)
+    yield mk('Tuple', A(default=E((1, 2, 3)), length=2), [E((1, 2)), E((1, 2, 3))])                                             # idem
     yield mk('Bytes', A(default=E(b''), allow_None=True), [E(None), E(b'a'), E('a')])
     yield mk('Bytes', A(default=E(b'a'), regex='^a', allow_None=True), [E(None), E(b'a'), E(b'b'), E('a')])
     for c in all_names_case(CSS3):
@@ -1076,35 +1075,10 @@ def shrink(case):
                 yield mk(case['ptype'], dict(case['args'], bounds={'v': nb}), vals)
 
 
-def _failing_value(case, fail):
-    m = re.search(r'value #(\d+)', str(fail.get('why', '')))
-    if m and int(m.group(1)) < len(case['values']):
-        return case['values'][int(m.group(1))]
-    return None
-
-
 def classify(case, impl, fail):
-    """keys of KNOWN_FINDINGS.txt; each predicate is narrow: parameter type + the specific shape of the input"""
-    why = str(fail.get('why', ''))
-    pt = case['ptype']
-    j = _failing_value(case, fail)
-    if fail.get('kind') != 'counterexample':
-        return None
-    if pt == 'Integer' and 'accepted' in why:
-        d = case['args'].get('default', {}).get('v')
-        if (isinstance(j, dict) and j.get('gen') is True) or \
-                (why.startswith('constructor') and isinstance(d, dict) and d.get('gen') is True):
-            return 'integer-accepts-generator-function'
-    if pt == 'ListSelector' and isinstance(j, dict) and None in j.get('l', [0]) and 'accepted' in why \
-            and case['args'].get('allow_None', {}).get('v') is True:
-        return 'listselector-allow-none-admits-none-items'
-    if pt == 'CalendarDateRange' and isinstance(j, dict) and ('l' in j or 'm' in j) and ('accepted' in why or 'KeyError' in why):
-        return 'calendardaterange-accepts-non-tuples'
-    if pt == 'Color' and isinstance(j, dict) and j.get('s', '').endswith('\n') and 'accepted' in why:
-        return 'color-accepts-trailing-newline'
-    if pt in ('Tuple', 'NumericTuple', 'XYCoordinates') and 'default' in case['args']:
-        d = case['args']['default']['v']
-        declared = 2 if pt == 'XYCoordinates' else case['args'].get('length', {}).get('v')
-        if isinstance(d, dict) and 't' in d and d['t'] and declared is not None and len(d['t']) != declared:
-            return 'tuple-length-overridden-by-default'
+    """keys of KNOWN_FINDINGS.txt.  The five deviations found while building this check (Integer and
+    generator functions, None items of a ListSelector, non-tuples / datetimes in CalendarDateRange, a hex
+    colour followed by a newline) were repaired in /repo; the Tuple length being taken from a non-empty
+    default is documented behaviour and part of the specification.  Nothing is classified any more:
+    every failure is a new one."""
     return None
